@@ -230,7 +230,9 @@ func c01(args []string) int {
 		if j.Variant == "seam" {
 			what = "map-order@" + r.Site
 		}
-		sig := fmt.Sprintf("C01|diverge|config=%s|kind=%s|field=%s", what, kind, r.Field)
+		// index-lag: one root cause per kind; whether it shows first in a tx result or in the app hash
+		// depends on the history and is not part of the identity
+		sig := fmt.Sprintf("C01|diverge|config=%s|kind=%s", what, kind)
 		if j.Variant != "index-lag" {
 			sig = fmt.Sprintf("C01|diverge|config=%s|scn=%s|field=%s", what, j.Scn, r.Field)
 		}
